@@ -692,3 +692,19 @@ Proof.
   - now apply sorted_ind_is_index.
   - rewrite <- (lexsort_length t). apply rect_gmap_gather.
 Qed.
+
+(* F-C08-b: in an NPultra geometry map every z on the 6 um pitch leaves the row off the grid:
+   the code adds the 20 um tip offset although the NPultra grid has Y0 = 0 *)
+Lemma npultra_geom_row_offgrid sh x r f : site_crxy NPU GeomMap (sh, x, 6 * r, f) = None.
+Proof.
+  unfold site_crxy, s_a, s_b, xy2r, exact_div. cbn [fst snd Y0 DY].
+  replace (6 * r + 20 - 0) with (2 + (r + 3) * 6) by ring.
+  rewrite Z_mod_plus_full. change (2 mod 6 =? 0) with false.
+  destruct (xy2c NPU x); reflexivity.
+Qed.
+
+Lemma npultra_geom_none sh x r f sites split srt :
+  geometry NPU GeomMap ((sh, x, 6 * r, f) :: sites) split srt = None.
+Proof.
+  unfold geometry, geometry_unsorted. cbn [map_opt]. now rewrite npultra_geom_row_offgrid.
+Qed.
